@@ -23,6 +23,15 @@ class TEnum(Ty):
         return I
 
 
+class _ItemsPlus(Val):
+    """space.items() | {(name, value), ...}: a set of pairs, only used on the right of `<=`"""
+
+    def __init__(self, view, extra):
+        self.view, self.extra = view, extra
+        self.ty = THelper("items-union")
+        self.t = None
+
+
 class _CombIter(E._IterSpec):
     """for D in combinations(pool, k): D ranges over the k-subsets of pool, each once, arbitrary order"""
 
@@ -141,5 +150,18 @@ def install(reg):
         if isinstance(op, ast.LtE) and isinstance(a, _ItemsView) and isinstance(b, _ItemsView):
             x = z3.Const(fresh_name("x"), Name)
             return z3.ForAll([x], z3.Implies(a.space.t[x] >= 0, b.space.t[x] == a.space.t[x]))
+        if isinstance(op, ast.LtE) and isinstance(a, _ItemsView) and isinstance(b, _ItemsPlus):
+            # d.items() <= (e.items() | {pairs}): every item of d is an item of e or one of the extra pairs
+            x = z3.Const(fresh_name("x"), Name)
+            KT = b.extra.ty.elem
+            return z3.ForAll([x], z3.Implies(a.space.t[x] >= 0, z3.Or(b.view.space.t[x] == a.space.t[x], b.extra.t[KT.mk(x, a.space.t[x])])))
         return None
     reg.add_hook("compare", compare)
+
+    def items_union(eng, st, op, a, b, node):
+        from .calls import _ItemsView
+        if isinstance(op, ast.BitOr) and isinstance(a, _ItemsView) and isinstance(b.ty, TSet) and isinstance(b.ty.elem, TTuple) \
+                and tuple(b.ty.elem.elems) == (TName, TInt):
+            return _ItemsPlus(a, b)
+        return None
+    reg.add_hook("binop", items_union)
